@@ -363,7 +363,7 @@ def judge(drv, before, after, op, raised):
         if raised:
             if not same and (a1 is None or a2 is None or a1 is not a2):
                 out.append(("C05:failed-op-changed-state:remove_substituent", f"{op} raised but the molecule was modified"))
-        else:
+        elif a1 is None or a1 is not a2:       # remove_substituent(a, a) on a self-loop is not a meaningful call: not judged
             nbr = {}
             for x, y in before["ends"]:
                 nbr.setdefault(id(x), []).append(y)
